@@ -275,6 +275,16 @@ func (k *LinkKey) Seal(payload []byte) []byte {
 	if len(payload) > MaxFramePay {
 		panic("ref: frame payload too long")
 	}
+	return k.SealAny(payload)
+}
+
+// SealAny seals a frame of any payload length the 16-bit length field can
+// carry -- what a peer that holds the session keys but does not respect the
+// format's maximum frame length can put on the wire.
+func (k *LinkKey) SealAny(payload []byte) []byte {
+	if len(payload)+16 > 0xffff {
+		panic("ref: frame payload does not fit the length field")
+	}
 	box := secretbox.Seal(nil, payload, k.nonce(), &k.Key)
 	k.Ctr++
 	mask := binary.BigEndian.Uint16(k.Drbg.NextBlock())
